@@ -220,8 +220,26 @@ def rule_range_form(rep, prog):
 
 
 def range_bodies(prog):
-    return [x for x in prog.bodies if x.self_adt == BITMAP and x.kind != "Closure" and not x.j.get("impl_derived")
+    """the bodies that turn the byte range of a MARKING entry (set_addr_range / reset_addr_range) into pages: the entry itself or a
+    method of the bitmap it calls (two levels) that builds an inclusive range. Another method with a range of its own (a read-only
+    query over pages, say) is not one of them."""
+    cand = [x for x in prog.bodies if x.self_adt == BITMAP and x.kind != "Closure" and not x.j.get("impl_derived")
             and any(canon(c.target or "").endswith("RangeInclusive::new") for c in x.calls())]
+    reach = set()
+    frontier = [b for nm in ("set_addr_range", "reset_addr_range") for b in prog.find(adt=BITMAP, name=nm)]
+    for _ in range(3):
+        nxt = []
+        for b in frontier:
+            if b.id in reach:
+                continue
+            reach.add(b.id)
+            for fb in prog.family(b):
+                for c in fb.calls():
+                    tb = prog.by_id.get(c.target) if c.target else None
+                    if tb is not None and tb.self_adt == BITMAP and tb.kind != "Closure":
+                        nxt.append(tb)
+        frontier = nxt
+    return [x for x in cand if x.id in reach]
 
 
 def _const_bool_args(c, callee):
@@ -244,11 +262,19 @@ def _rmw_kinds(prog, b, consts, depth=0, seen=None):
         return []
     seen.add(key)
     out = []
+    eff = prog.__dict__.get("_c09_eff")
+    if eff is None:
+        eff = prog.__dict__["_c09_eff"] = effects.Effects(prog)
     for fb in prog.family(b):
         for c in fb.calls():
-            if fb is b and consts:
+            if consts:
                 dead = False
-                for r in b.facts_at(c.pos):
+                # facts of a closure of b are read in b's own terms (a captured `set` is b's parameter)
+                try:
+                    fs = b.facts_at(c.pos) if fb is b else effects.facts_in_parent(eff, fb, c.pos)
+                except Exception:
+                    fs = []
+                for r in fs:
                     if r[0] == 'bool':
                         t = deep_strip(r[1])
                         if t[0] == 'param' and t[1] in consts and bool(r[2]) != consts[t[1]]:
